@@ -150,7 +150,10 @@ impl GenState {
             return 0;
         }
         let seen = self.info.get(key).map(|i| i.cas_seen.clone()).unwrap_or_default();
-        match rng.below(12) {
+        match rng.below(14) {
+            // equal to the current CAS in the low 32 (or 16, or 8) bits only
+            12 if !seen.is_empty() => seen.last().unwrap().wrapping_add(*rng.pick(&[1u64 << 32, 1 << 32, 1 << 16, 1 << 8, 1 << 63, 3 << 32])),
+            13 if !seen.is_empty() => seen.last().unwrap().wrapping_sub(*rng.pick(&[1u64 << 32, 1 << 16])),
             0..=4 if !seen.is_empty() => *seen.last().unwrap(),
             5 | 6 if !seen.is_empty() => *rng.pick(&seen),
             7 if !seen.is_empty() => seen.last().unwrap().wrapping_add(1),
